@@ -162,7 +162,7 @@ func (m *machine) Gen(t *rapid.T) Op {
 			case 1:
 				op.X = 2
 			}
-			nb := rapid.SampledFrom([]int{1, 1, 1, 2, 3, 5, 8, 16, 40}).Draw(t, "burst")
+			nb := rapid.SampledFrom([]int{1, 1, 40, 2, 3, 1, 5, 8, 16}).Draw(t, "burst")
 			for i := 0; i < nb; i++ {
 				op.Pk = append(op.Pk, m.genPk(t, lv1))
 			}
@@ -268,6 +268,17 @@ func (m *machine) Finish(u *vf.Unit) *vf.Verdict {
 	// Drain: the peer acknowledges everything that was sent in every space it can still acknowledge.
 	// A frame the handler lost track of (removed without callback) shows up as "accepted ACK covers the
 	// packet, no OnAcked".
+	if m.p.Drain == 1 {
+		// the peer falls silent: every deadline is waited for, and whatever the send mode then asks for is done
+		for round := 0; round < 14 && !m.closed; round++ {
+			if m.h.GetLossDetectionTimeout().IsZero() {
+				break
+			}
+			if v := m.Apply(Op{K: "send", TM: 1, Q: 1 + round%3}); v != nil {
+				return v
+			}
+		}
+	}
 	m.now += 1_000_000
 	drained := map[int]bool{}
 	for s, lvl := range []int{lvI, lvH, lv1} {
@@ -326,6 +337,7 @@ func genParams(server bool) func(t *rapid.T) Params {
 		p := Params{Server: server}
 		p.Qlog = rapid.IntRange(0, 4).Draw(t, "qlog") != 0
 		p.Fast = rapid.IntRange(0, 2).Draw(t, "fast") == 0
+		p.Drain = rapid.SampledFrom([]int{0, 0, 1}).Draw(t, "drain")
 		p.MaxAckMs = rapid.SampledFrom([]int{0, 0, 5, 25, 100}).Draw(t, "mad")
 		ng := rapid.IntRange(1, 4).Draw(t, "ngaps")
 		for i := 0; i < ng; i++ {
